@@ -709,6 +709,15 @@ class Interp:
                 # promoted constants that need calls (format arguments of assert messages, ...) carry no analysed value
                 return Opaque(ty, 'promoted')
         val = c.get('val')
+        if isinstance(val, dict) and 'too_generic' in val and c.get('name') in self.facts.fns:
+            # associated constant of a generic impl: evaluate its initialiser under the generic arguments of this frame
+            # (the constant is named with the identity arguments of the enclosing impl)
+            cb = self.facts.fns[c['name']]
+            if cb.get('kind') == 'const_body':
+                try:
+                    return self.eval_const_body(st, cb, cb, frame.genv, frame.depth + 1)
+                except InterpError:
+                    return Opaque(ty, 'const')
         return self.json_const(st, val, ty, c.get('name'))
 
     def json_const(self, st, val, ty, name=None):
@@ -770,9 +779,11 @@ class Interp:
         return Opaque(ty, 'const?')
 
     def eval_promoted(self, st, frame, idx):
-        body = frame.fn['promoted'][idx]
-        # run the promoted body to completion in a sub-interpreter on the same state (it is tiny)
-        sub = Frame(frame.fn, body, frame.genv, frame.depth + 1)
+        return self.eval_const_body(st, frame.fn, frame.fn['promoted'][idx], frame.genv, frame.depth + 1)
+
+    def eval_const_body(self, st, fn, body, genv, depth):
+        # run a promoted / associated-constant body to completion in a sub-interpreter on the same state (it is tiny)
+        sub = Frame(fn, body, genv, depth)
         sub.is_promoted = True
         saved = st.frames
         st.frames = [sub]
@@ -1037,7 +1048,11 @@ class Interp:
                     if vn is None and rv['path'].startswith('core::result::Result'):
                         vn = ['Ok', 'Err']
                     return EnumV(rv['path'], rv['variant'], {rv['variant']: fields}, vnames=vn, targs=tenv)
-                return StructV(rv['path'], rv['field_names'], fields, targs=tenv)
+                names = rv['field_names']
+                adt_ = self.facts.adts.get(rv['path'])
+                if adt_ and adt_.get('kind') == 'struct' and len(adt_['variants'][0]['fields']) == len(names):
+                    names = [f['name'] for f in adt_['variants'][0]['fields']]   # canonical names (renamed private fields, sa/facts.py)
+                return StructV(rv['path'], names, fields, targs=tenv)
             if agg == 'closure':
                 return ClosureV(rv['path'], fields)
             if agg == 'array':
